@@ -23,6 +23,17 @@ pub const H_POINT: u32 = H_BASE + 1;   // between two harness-level operations
 pub const H_OP:    u32 = H_BASE + 2;   // an operation of the script completed (resets the streak)
 
 pub const MAX_SITES: usize = 160;
+/// OS threads ended by `freeze` (their stacks stay mapped): a shard stops early when this gets large, the driver starts a fresh process
+pub static LEAKED_THREADS: AtomicU64 = AtomicU64::new(0);
+
+#[cfg(all(target_arch = "x86_64", target_os = "linux"))]
+fn exit_this_thread() -> ! {
+    // SYS_exit ends the calling thread only (no unwinding, no TLS destructors); its kernel thread and pid are released
+    unsafe { std::arch::asm!("syscall", in("rax") 60, in("rdi") 0, options(noreturn)) }
+}
+#[cfg(not(all(target_arch = "x86_64", target_os = "linux")))]
+fn exit_this_thread() -> ! { loop { std::thread::park() } }
+
 #[allow(clippy::declare_interior_mutable_const)]
 const ZERO64: AtomicU64 = AtomicU64::new(0);
 pub static SITE_HITS: [AtomicU64; MAX_SITES] = [ZERO64; MAX_SITES];
@@ -454,12 +465,16 @@ impl St {
 }
 
 impl Shared {
+    /// The run was aborted (stall / step cap): this thread must never execute library code again. It cannot unwind (it may sit in the
+    /// middle of a library operation, holding a spin lock that nothing would release) -- so the OS thread simply ends here, without
+    /// running any destructor: everything it owns is leaked together with the run's channel.
     fn freeze(&self, mut st: std::sync::MutexGuard<'_, St>, tid: usize) -> ! {
         st.th[tid].status = Status::Frozen;
         st.done_threads += 1;
         self.main.notify_all();
         drop(st);
-        loop { std::thread::park() }
+        LEAKED_THREADS.fetch_add(1, SeqCst);
+        exit_this_thread()
     }
 
     fn hand_over<'a>(&'a self, mut st: std::sync::MutexGuard<'a, St>, me: usize, next: usize) -> std::sync::MutexGuard<'a, St> {
